@@ -552,14 +552,78 @@ def rule_j_index_parsed_strictly(ctx, kfns):
                 lax = [c for c in g.calls() if (c.callee or "").split("::")[-1] in ("atoi", "atol", "atoll", "atof")]
                 strict = [c for c in g.calls() if (c.callee or "").split("::")[-1] in ("stoi", "stol", "stoll", "stoul", "strtol", "strtoul", "from_chars") and len(c.call_args()) >= 2]
                 errs = [c for c in g.calls() if (c.callee or "").split("::")[-1] == "error"]
+                endvars = {key(c.call_args()[1].strip()).lstrip("(& ").rstrip(")") for c in strict}
                 ok = not lax and bool(strict) and bool(errs)
                 if ok and g.cfg_raw:
-                    cfg = CFG(g)
                     # the error exit depends on the end position reported by the conversion
-                    endvars = {key(c.call_args()[1].strip()).lstrip("(& ").rstrip(")") for c in strict}
                     ok = any(a.k == "IfStmt" and a.c and any(v and v in key(a.c[0]) for v in endvars) for e in errs for a in e.ancestors())
-                ctx.ob(RULE, g.qn, "conversion", ok, (lax[0] if lax else g).where(), "the index text is converted with a function that reports the characters used, and left-over text ends in error()" if ok else ("the index text is converted with %s, which accepts trailing garbage, fractions and overflow silently: `key[2abc]` is stored at index 2" % lax[0].callee.split("::")[-1] if lax else "no strict conversion of the index text with an error() exit for left-over characters found"))
+                deferred = False
+                if not lax and strict and not ok:
+                    # or: left-over text makes the function return a distinguished constant, and the caller reaches error() when
+                    # current_index equals that constant for a keyword it knows (a comment or an unknown key may contain anything
+                    # between brackets - F80, the regression of the first form of this repair)
+                    rets = [r for r in g.walk() if r.k == "ReturnStmt" and r.c and any(a.k == "IfStmt" and a.c and any(v and v in key(a.c[0]) for v in endvars) for a in r.ancestors())]
+                    sent = {key(r.c[0].strip()) for r in rets}
+                    if len(sent) == 1:
+                        sk = sent.pop()
+                        fcfg = CFG(f)
+                        tests = [t for t in f.walk() if t.k == "IfStmt" and t.c and sk in key(t.c[0]) and "this.current_index" in key(t.c[0]) and any((c.callee or "").split("::")[-1] == "error" for c in t.c[1].calls())]
+                        sw = [x for x in f.walk() if x.k == "SwitchStmt"]
+                        if tests and sw and all(fcfg.dominates(tests[0].c[0].strip(), x.c[0].strip()) or tests[0].i < x.i for x in sw[:1]):
+                            ok = deferred = True
+                ctx.ob(RULE, g.qn, "conversion", ok, (lax[0] if lax else g).where(), ("the index text is converted with a function that reports the characters used, and left-over text ends in error()" if not deferred else "the index text is converted strictly; left-over text is reported to parse_value_in_line, which reaches error() for a keyword it knows before the value is stored") if ok else ("the index text is converted with %s, which accepts trailing garbage, fractions and overflow silently: `key[2abc]` is stored at index 2" % lax[0].callee.split("::")[-1] if lax else "no strict conversion of the index text with an error() exit for left-over characters found"))
                 n += 1
+    return n
+
+
+def rule_k_unknown_lines_never_abort(ctx, kfns):
+    """Comments and keys that are not in the keymap are skipped (with a warning at most) whatever they contain.  Everything that
+    parse_value_in_line evaluates BEFORE it knows whether the keyword is in the keymap (map_keyword) must therefore be free of error()
+    exits - F80: the index extraction called error() for `[text]`, so a comment with brackets aborted the whole parse."""
+    RULE = "C17.k-lines-with-unknown-keywords-never-abort"
+    from engine.cfg import CFG
+
+    n = 0
+    byqn = {h.qn: h for h in kfns if h.body is not None}
+    for f in kfns:
+        if f.body is None or f.short != "parse_value_in_line" or not f.cfg_raw:
+            continue
+        cfg = CFG(f)
+        mk = [c for c in f.calls() if (c.callee or "").split("::")[-1] == "map_keyword" and c.i in cfg.pos]
+        if not mk:
+            ctx.unrec(f.qn, "C17.k: no map_keyword call")
+            continue
+
+        def can_abort(g, depth=0, seen=None):
+            seen = seen or set()
+            if g.qn in seen or depth > 4:
+                return None
+            seen.add(g.qn)
+            for c in g.calls():
+                if (c.callee or "") == "stir::error":
+                    return c
+                h = byqn.get(c.callee or "")
+                if h is not None and h.file == g.file:
+                    r = can_abort(h, depth + 1, seen)
+                    if r is not None:
+                        return r
+            return None
+
+        bad = None
+        for c in f.calls():
+            if c.i not in cfg.pos or c.i == mk[0].i or not cfg.dominates(c, mk[0]):
+                continue
+            if (c.callee or "") == "stir::error":
+                bad = (c, c)
+                break
+            h = byqn.get(c.callee or "")
+            if h is not None and h.short != "map_keyword":
+                r = can_abort(h)
+                if r is not None:
+                    bad = (c, r)
+                    break
+        ctx.ob(RULE, f.qn, "before-keyword-look-up", bad is None, (bad[0] if bad else mk[0]).where(), "nothing evaluated before map_keyword() can end in error()" if bad is None else "%s is evaluated for every line before the keyword is looked up and can end in error() (%s): a comment or an unknown key that it does not like aborts the whole parse instead of being skipped" % ((bad[0].callee or "").split("::")[-1], bad[1].where()))
+        n += 1
     return n
 
 
@@ -599,6 +663,8 @@ def run(ctx):
     rule_h_bounded_string_copies(ctx, uniq(us[5].functions))
     ctx.require_count("C17.h-bounded-string-copies", 1)
     rule_j_index_parsed_strictly(ctx, uniq(us[6].functions) if len(us) > 6 and us[6] is not None else kfns)
+    rule_k_unknown_lines_never_abort(ctx, uniq(us[6].functions) if len(us) > 6 and us[6] is not None else kfns)
+    ctx.require_count("C17.k-lines-with-unknown-keywords-never-abort", 1)
     ctx.require_count("C17.j-index-parsed-strictly", 1)
     rule_i_counts_validated(ctx, hall)
     ctx.require_count("C17.i-counts-validated-before-resize", 8)
